@@ -111,16 +111,17 @@ pub fn seed(name: &str) -> World {
             sub.create_named_sub_element(ElementName::ArPackage, "a10").unwrap();
             let els = a1.create_sub_element(ElementName::Elements).unwrap();
             let c = els.create_named_sub_element(ElementName::CanCluster, "c").unwrap();
-            // nested identifiable below a non-identifiable container
-            let ch = c
-                .create_sub_element(ElementName::CanClusterVariants)
-                .unwrap()
+            // nested identifiable below a non-identifiable container; a second, empty CAN-CLUSTER-CONDITIONAL next to it: moving
+            // PHYSICAL-CHANNELS there changes the parent but no path
+            let variants = c.create_sub_element(ElementName::CanClusterVariants).unwrap();
+            let ch = variants
                 .create_sub_element(ElementName::CanClusterConditional)
                 .unwrap()
                 .create_sub_element(ElementName::PhysicalChannels)
                 .unwrap()
                 .create_named_sub_element(ElementName::CanPhysicalChannel, "ch")
                 .unwrap();
+            variants.create_sub_element(ElementName::CanClusterConditional).unwrap();
             let s = els.create_named_sub_element(ElementName::System, "s").unwrap();
             let fe = s.create_sub_element(ElementName::FibexElements).unwrap();
             mk_ref(&fe, Some(&c), None, EnumItem::CanCluster);
@@ -467,7 +468,7 @@ pub fn ops_for(w: &World, profile: Profile) -> Vec<Op> {
             let movable = |x: &Element| {
                 matches!(
                     x.element_name(),
-                    ElementName::ArPackage | ElementName::CanCluster | ElementName::System | ElementName::Elements | ElementName::ArPackages | ElementName::FibexElementRefConditional | ElementName::CanClusterConditional | ElementName::FibexElementRef
+                    ElementName::ArPackage | ElementName::CanCluster | ElementName::System | ElementName::Elements | ElementName::ArPackages | ElementName::FibexElementRefConditional | ElementName::CanClusterConditional | ElementName::PhysicalChannels | ElementName::FibexElementRef
                 )
             };
             for (j, o) in l.iter().enumerate() {
@@ -501,7 +502,7 @@ pub fn ops_for(w: &World, profile: Profile) -> Vec<Op> {
         }
         let movable_out = matches!(
             e.element_name(),
-            ElementName::ArPackage | ElementName::CanCluster | ElementName::System | ElementName::Elements | ElementName::ArPackages | ElementName::FibexElementRefConditional | ElementName::CanClusterConditional | ElementName::FibexElementRef
+            ElementName::ArPackage | ElementName::CanCluster | ElementName::System | ElementName::Elements | ElementName::ArPackages | ElementName::FibexElementRefConditional | ElementName::CanClusterConditional | ElementName::PhysicalChannels | ElementName::FibexElementRef
         );
         if (tree || refs) && i > 0 && movable_out {
             // the other direction: this element into every fitting place of the other model
@@ -1416,7 +1417,18 @@ pub fn explore(cfg: &Config, ctx: &Ctx, report: &(dyn Fn(&Finding, Value) + Sync
     let mut per_seed: Vec<PerSeed> = vec![];
     for seed_name in &cfg.seeds {
         let mut seen: HashSet<(usize, u64)> = HashSet::new();
-        let w0 = seed(seed_name);
+        // building a seed only uses public calls on valid input: a panic there is a finding (C12), not a harness failure
+        let w0 = match guarded(|| seed(seed_name)) {
+            Ok(w) => w,
+            Err(msg) => {
+                let loc = last_panic_loc();
+                report(&fd("C12", format!("panic|seed-construction|{loc}"), msg.clone()), history_json(seed_name, &[], None));
+                if ctx.prop != "C12" {
+                    ctx.machinery_error(format!("seed {seed_name} cannot be built, the library panics at {loc} (a C12 matter): {msg}"));
+                }
+                continue;
+            }
+        };
         for fnd in state_invariants(&w0, None) {
             report(&fnd, history_json(seed_name, &[], None));
         }
